@@ -172,6 +172,57 @@ def simulated_write(fmt, records, wp, simfile, append=False):
 _CHG_CODE = {'  1': 3, '  2': 2, '  3': 1, '  5': -1, '  6': -2, '  7': -3}
 
 
+_EXTRA_LINES = [
+    lambda n: ['A  %3d' % n, 'Me'],                                 # atom alias (two lines)
+    lambda n: ['V  %3d some value' % n],                            # atom value
+    lambda n: ['G  %3d%3d' % (n, n), 'grp'],                        # group abbreviation (two lines)
+    lambda n: ['M  STY  1   1 SUP', 'M  SAL   1  1 %3d' % n, 'M  SMT   1 Ac'],   # superatom Sgroup
+    lambda n: ['M  STY  1   1 DAT', 'M  SAL   1  1 %3d' % n, 'M  SDT   1 NAME', 'M  SED   1 text'],   # data Sgroup
+    lambda n: ['M  ZZZ  1 %3d   2' % n],                            # property line this reader does not know
+    lambda n: ['M  SUB  1 %3d   2' % n],                            # query substitution count
+    lambda n: ['M  RGP  1 %3d   1' % n],                            # R-group label
+    lambda n: ['M  LIN  1 %3d   2' % n],
+]
+
+
+def _v2000_extras(rec, picks, header):
+    """The things other programs put into a V2000 molblock around what chython writes: filled program / comment lines,
+    the chiral flag, a counts line without the obsolete 999, and property lines the reader has no use for (aliases, values,
+    Sgroups, unknown `M  XXX` lines) in front of `M  END`.  None of them changes the structure."""
+    lines = rec.split('\n')
+    out, i = [], 0
+    while i < len(lines):
+        ln = lines[i]
+        if ln.endswith('V2000') and len(ln) >= 39 and len(out) >= 3:
+            try:
+                na, nb = int(ln[0:3]), int(ln[3:6])
+            except ValueError:
+                out.append(ln)
+                i += 1
+                continue
+            if header & 1:
+                out[-2] = '  OtherProg10022612002D'
+            if header & 2:
+                out[-1] = 'written by another program'
+            if header & 4:
+                ln = ln[:12] + '  1' + ln[15:]       # chiral flag
+            if header & 8:
+                ln = ln[:18] + '  0  0  0  0' + '  5' + ln[33:] if ln[30:33] == '999' else ln   # obsolete fields filled
+            out.append(ln)
+            j = i + 1
+            while j < len(lines) and not lines[j].startswith('M  END'):
+                out.append(lines[j])
+                j += 1
+            if na:
+                for q, k in enumerate(picks):
+                    out.extend(_EXTRA_LINES[k % len(_EXTRA_LINES)](1 + (k + q) % na))
+            i = j
+            continue
+        out.append(ln)
+        i += 1
+    return '\n'.join(out)
+
+
 def _v2000_props(rec, per_line):
     """Rewrite every V2000 molblock of a record the way most other programs write it: charges as `M  CHG` lines (atom block
     column zeroed) and the `M  CHG` / `M  ISO` / `M  RAD` entries grouped up to 8 per line."""
@@ -288,6 +339,8 @@ def apply_foreign(fmt, text, extents, spec):
             rec = _mrv_compact(rec)
         if kind == 'v2000props' and fmt in ('sdf', 'rdf'):
             rec = _v2000_props(rec, spec.get('per_line', 8))
+        if kind == 'v2000extras' and fmt in ('sdf', 'rdf'):
+            rec = _v2000_extras(rec, spec.get('picks', [0]), spec.get('header', 0))
         pieces.append(rec)
         new_ext.append((pos, pos + len(rec)))
         pos += len(rec)
@@ -1208,16 +1261,19 @@ def generate(seed):
     trace['write'] = wp
     mode = cfg['mode']
     if mode in ('clean', 'indexed') and s.random() < (0.6 if mode == 'indexed' else 0.3):
-        k = s.choice((['empty_record'] * 4 if mode == 'indexed' else []) + ['v3000wrap', 'v3000wrap', 'no_final_delimiter', 'crlf', 'empty_record', 'empty_record', 'v2000props', 'v2000props', 'rireg'])
+        k = s.choice((['empty_record'] * 4 if mode == 'indexed' else []) + ['v3000wrap', 'v3000wrap', 'no_final_delimiter', 'crlf', 'empty_record', 'empty_record', 'v2000props', 'v2000props', 'rireg', 'v2000extras', 'v2000extras'])
         if fmt == 'mrv':
             k = 'mrv_compact'
         if (k == 'v3000wrap' and fmt in ('esdf', 'erdf')) or (k == 'empty_record' and fmt != 'mrv') or \
-                (k == 'v2000props' and fmt in ('sdf', 'rdf')) or (k == 'rireg' and fmt in ('rdf', 'erdf')) or \
+                (k in ('v2000props', 'v2000extras') and fmt in ('sdf', 'rdf')) or (k == 'rireg' and fmt in ('rdf', 'erdf')) or \
                 (k == 'mrv_compact' and fmt == 'mrv') or \
                 (k == 'no_final_delimiter' and fmt in ('sdf', 'esdf') and mode == 'clean') or \
                 (k == 'crlf' and fmt != 'mrv'):
             trace['foreign'] = {'kind': k, 'width': s.choice([20, 30, 40, 60, 78]), 'blank_first': s.random() < 0.5,
                                 'no_newline': s.random() < 0.5, 'after': s.randrange(8), 'per_line': s.choice([1, 2, 3, 8, 8])}
+            if k == 'v2000extras':
+                trace['foreign']['picks'] = [s.randrange(64) for _ in range(s.choice([0, 1, 1, 2, 3]))]
+                trace['foreign']['header'] = s.randrange(16)
     if mode == 'clean' and fmt != 'mrv' and s.random() < 0.3 and not trace.get('foreign'):
         trace['append'] = [gen_record_spec(w, cfg, FORMATS[fmt]['rxn']) for _ in range(s.choice([1, 2]))]
     reads = []
